@@ -3,6 +3,7 @@ package main
 // SSA instruction encoding.
 
 import (
+	"sort"
 	"hash/fnv"
 	"fmt"
 	"go/constant"
@@ -333,6 +334,31 @@ func (fx *FnCtx) instr(in ssa.Instruction) {
 		fx.next(x)
 	case *ssa.Defer:
 	case *ssa.RunDefers:
+		// defers registered later run first: those outside the entry block, deepest dominator first
+		rb := x.Block()
+		var late []*ssa.Defer
+		for _, d := range fx.lateDefers {
+			db := d.Block()
+			if fx.innermost(db) != nil {
+				fx.errf("outside subset: defer registered inside a loop in %s", fx.key)
+				continue
+			}
+			if db.Dominates(rb) {
+				late = append(late, d)
+			} else if blockReaches(db, rb) {
+				fx.errf("outside subset: deferred call in %s is registered on some but not all paths to a function exit", fx.key)
+			}
+		}
+		sort.SliceStable(late, func(i, j int) bool {
+			bi, bj := late[i].Block(), late[j].Block()
+			if bi == bj {
+				return false
+			}
+			return bi.Dominates(bj)
+		})
+		for i := len(late) - 1; i >= 0; i-- {
+			fx.call(nil, &late[i].Call)
+		}
 		for i := len(fx.defers) - 1; i >= 0; i-- {
 			d := fx.defers[i]
 			fx.call(nil, &d.Call)
@@ -358,6 +384,28 @@ func (fx *FnCtx) instr(in ssa.Instruction) {
 			fx.defineFresh(v)
 		}
 	}
+}
+
+// blockReaches: some path leads from a to b
+func blockReaches(a, b *ssa.BasicBlock) bool {
+	seen := map[*ssa.BasicBlock]bool{}
+	var walk func(x *ssa.BasicBlock) bool
+	walk = func(x *ssa.BasicBlock) bool {
+		if x == b {
+			return true
+		}
+		if seen[x] {
+			return false
+		}
+		seen[x] = true
+		for _, s := range x.Succs {
+			if walk(s) {
+				return true
+			}
+		}
+		return false
+	}
+	return walk(a)
 }
 
 func fieldName(x *ssa.FieldAddr) string {
